@@ -11,3 +11,8 @@ import CnbVerif.Props.C17
 #print axioms CnbVerif.C17.value_positions_pack_build
 #print axioms CnbVerif.C17.small_commands_roundtrip
 #print axioms CnbVerif.C17.generated_names_ok
+#print axioms CnbVerif.C17.one_pack_build_per_build_call
+#print axioms CnbVerif.C17.invocations_independent_of_tool_output
+#print axioms CnbVerif.C17.pack_output_handed_over
+#print axioms CnbVerif.C17.hand_over_one_per_invocation
+#print axioms CnbVerif.C17.lossy_identity_on_ascii
